@@ -94,6 +94,10 @@ def run(ctx):
     for i in range(2 if ctx.quick else 30):
         explore2.explore(ctx, "C05", r.fork(), kindsA=("compact",), kindsB=("set+state", "new", "claim_oldest", "set", "reopen", "sequence"),
                          max_points=(6 if ctx.quick else 40), state_cmds=8, legacy=(i % 3 == 2))
+    # compact's rewrite when a write, fsync or rename fails or a write is cut short: it must fail and leave the old log, never a shorter one
+    from . import c10
+    for i in range(3 if ctx.quick else 40):
+        c10.io_faults(ctx, r.fork(), prop="C05", torn=(i % 3 == 2), only=("compact",))
     ctx.cov["rule"] = ("random event lists → Go compactEvents∘replayEvents vs model; twin stores driven by one seeded history with scripted RNG, compact inserted at random "
                        "points in one of them (legacy file name and torn tails included): observables, claim order, pruned ids, idempotence, later commands compared")
 
